@@ -19,7 +19,7 @@ def prebuild(ctx):
     import sys
     sys.path.insert(0, os.path.join(C.VERIF, "harness", "translate"))
     import py2coq_core
-    py2coq_core.prebuild(ctx, C, ["nondominated_sort_cmp"])
+    py2coq_core.prebuild(ctx, C, ["nondominated_sort_cmp", "_matches", "matches", "truncate", "nondominated_truncate", "truncate_fitness", "nondominated_split"])
 
 
 META = {
